@@ -17,6 +17,12 @@ part of the first result (`hostile_obj`); most serialise cases re-use an object 
 values of another case before (`prev`); `ops` mixes both in random sequences.  All of this runs in forked children
 (`Isolated`) so that a shrunk / replayed case never depends on what an earlier case left behind.
 
+Round 4: serialisers may depend on the SHAPE of a collection (is-last decided by value / index() / identity, de-duplication,
+sorting) rather than on its entries.  `shape_list` rewrites a fraction of every generated parameter / gap / duplicate /
+stream list and chunk bundle (earlier = last, first = last, adjacent, all equal, block twice, palindrome, sorted ...),
+`equal_entry_sweep` covers equal entries at every pair of positions x every length residue, `share` decides whether equal
+entries are one Python object or separately built ones.
+
 Round 3: a lenient checksum verification fails on STRUCTURED points of the error space (the checksum in the other byte
 order, another algorithm's value, zero ...) that random bursts never hit.  `burst` and `parse` now also apply the
 transformations `XF` / `CK_ALT` to the checksum field, to the windows overlapping it and to every other header /
@@ -80,6 +86,10 @@ RULE = ("chunks are built with the repo's own classes from boundary-biased field
         "alterations of the checksum field and of every header / chunk field of packets of every class (byte / bit order, "
         "half swap, rotations, complement, zero, ones, +-1, 17 alternative check values in both byte orders), also with "
         "the checksum recomputed (must parse to the transformed value); "
+        "shapes: 30 % of the parameter / gap / duplicate / stream lists and 15 % of the parsed bundles have repeated entries "
+        "(earlier = last, first = last, adjacent, all equal, block twice, palindrome, same key, sorted / reversed, single), "
+        "parameter lists with equal entries at every pair of positions x every length residue mod 4, equal entries as one "
+        "object or as separately built objects; "
         "purity: every parse is done twice with the first result modified in between (ints, bytes, lists in place), two "
         "thirds of the serialise cases re-use an object that was serialised with other values, op sequences of 4..30 "
         "steps over 4 slots mix both (value sweeps on one object, interleaved objects of one class, sibling packets with "
@@ -211,7 +221,16 @@ def _elem(kind, x):
     return x
 
 
-def assign_fields(c, spec):
+def build_list(kind, entries, share=False):
+    """The Python list the library stores for a spec list.  share=True: equal entries are ONE object occurring several
+    times (`l = [p, q, p]`); share=False: every entry is built on its own (equal, not identical)."""
+    if not share:
+        return [_elem(kind, x) for x in entries]
+    seen = {}
+    return [seen.setdefault(repr(x), _elem(kind, x)) for x in entries]
+
+
+def assign_fields(c, spec, share=False):
     """Overwrite every public wire field of the LIVE object `c` with the values of `spec` (same class)."""
     name = spec["cls"]
     c.flags = spec["flags"]
@@ -220,17 +239,17 @@ def assign_fields(c, spec):
     for key, attr in BYTES_FIELDS.get(name, []):
         setattr(c, attr, unhx(spec[key]))
     for key, attr, kind in LIST_FIELDS.get(name, []):
-        setattr(c, attr, [_elem(kind, x) for x in spec[key]])
+        setattr(c, attr, build_list(kind, spec[key], share))
     return c
 
 
-def build_chunk(spec):
+def build_chunk(spec, share=False):
     m = _m()
     name = spec["cls"]
     cls = getattr(m, name)
     if name in PLAIN:
         return cls(flags=spec["flags"], body=unhx(spec["body"]))
-    return assign_fields(cls(flags=spec["flags"]), spec)
+    return assign_fields(cls(flags=spec["flags"]), spec, share)
 
 
 # ---- the hostile owner (mirrors Model/Sctp/WireOps.lean `hostile*`) -------------------------------------
@@ -453,7 +472,91 @@ def gen_len(rng, big=False):
     return rng.choice([65515, 65516, 65519, 65520, 65527, 65528, 65530, 65531, 65532, 65533])
 
 
+# ---- collection shapes (round 4) -------------------------------------------------------------------------
+# Code that walks a collection may depend on its SHAPE rather than on its elements: "is this the last entry" decided by
+# value (`x != l[-1]`), by `l.index(x)`, by `x in seen`, by identity; sorting / de-duplicating on the way; special cases
+# for one or no entry.  Independently drawn entries are never equal, so a fraction of every generated list is rewritten.
+
+SHAPES = ["earlier=last", "first=last", "last-twice", "adjacent", "two-equal", "all-equal", "block-twice", "palindrome",
+          "sorted", "reversed", "same-key", "single", "pair"]
+
+
+def shape_list(rng, lst, fresh, shape=None, limit=None):
+    """A list of the same kind of entries as `lst` with the given (or a random) shape; `fresh()` draws a new entry."""
+    shape = shape or rng.choice(SHAPES)
+    l = [e for e in lst]
+    while len(l) < 3:
+        l.append(fresh())
+    cp = lambda e: list(e) if isinstance(e, list) else e      # equal, not the same JSON object
+    if shape == "earlier=last":
+        i = rng.randrange(len(l) - 1)
+        l[i] = cp(l[-1])
+    elif shape == "first=last":
+        l[-1] = cp(l[0])
+    elif shape == "last-twice":
+        l.append(cp(l[-1]))
+    elif shape == "adjacent":
+        i = rng.randrange(len(l))
+        l.insert(i, cp(l[i]))
+    elif shape == "two-equal":
+        i, j = rng.sample(range(len(l)), 2)
+        l[j] = cp(l[i])
+    elif shape == "all-equal":
+        l = [cp(l[0]) for _ in range(rng.choice([2, 2, 3, 4, 5, len(l)]))]
+    elif shape == "block-twice":
+        l = l[:rng.choice([1, 2, 3, len(l)])]
+        l = l + [cp(e) for e in l]
+    elif shape == "palindrome":
+        l = l + [cp(e) for e in l[-2::-1]]
+    elif shape in ("sorted", "reversed"):
+        key = lambda e: ((e[0], len(e[1]) if isinstance(e[1], str) else e[1]) if isinstance(e, list)
+                         else repr(sorted(e.items())) if isinstance(e, dict) else e)
+        l = sorted(l, key=key, reverse=(shape == "reversed"))
+    elif shape == "same-key" and isinstance(l[0], list):
+        l = [[l[0][0], e[1]] for e in l]
+    elif shape == "single":
+        l = l[:1]
+    elif shape == "pair":
+        l = [l[0], cp(l[0])] if rng.random() < 0.5 else l[:2]
+    if limit is not None and len(l) > limit:
+        l = l[:limit - 1] + [cp(l[0])]
+    return l
+
+
+def _gen_param(rng, over=0.0, l=None):
+    if l is None:
+        l = rng.randrange(0, 9) if rng.random() < 0.7 else rng.randrange(0, 70)
+    return [pick(rng, B16 + [7, 13, 16, 17, 0x8008, 0xC000], 65536, over), hx(rbytes(rng, l))]
+
+
+SHAPED = 0.3    # fraction of the generated lists that get a shape
+
+
+def equal_entry_sweep(rng, fresh_for_len):
+    """Parameter lists of 2..4 entries in which the entries at positions i < j are EQUAL, for every (i, j) and every length
+    residue 0..3 of the repeated entry (the other entries get random residues); plus all-equal lists of 2..5 entries."""
+    out = []
+    for n in (2, 3, 4):
+        for i in range(n):
+            for j in range(i + 1, n):
+                for r in range(4):
+                    l = [fresh_for_len(rng.randrange(0, 9)) for _ in range(n)]
+                    l[i] = fresh_for_len(r + 4 * rng.randrange(0, 3))
+                    l[j] = list(l[i])
+                    out.append(l)
+    for n in (2, 3, 5):
+        for r in range(4):
+            e = fresh_for_len(r + 4 * rng.randrange(0, 2))
+            out.append([list(e) for _ in range(n)])
+    return out
+
+
+
 def gen_params(rng, big=False, over=0.0):
+    if rng.random() < SHAPED:
+        # few entries, every length residue: the padding between two entries is where shapes matter
+        base = [_gen_param(rng, over, rng.randrange(0, 9)) for _ in range(rng.choice([0, 1, 2, 3, 4, 6]))]
+        return shape_list(rng, base, lambda: _gen_param(rng, over, rng.randrange(0, 9)))
     n = rng.choice([0, 1, 1, 2, 2, 3, 5, rng.randrange(6, 40)])
     ps = []
     for _ in range(n):
@@ -468,7 +571,10 @@ def gen_pairs(rng, big=False, over=0.0):
     n = rng.choice([0, 1, 2, 3, rng.randrange(0, 30), rng.randrange(30, 400)])
     if big and rng.random() < 0.03:
         n = rng.choice([8000, 16378, 16379, 16380])
-    return [[pick(rng, B16, 65536, over / 4), pick(rng, B16, 65536, over / 4)] for _ in range(n)]
+    fresh = lambda: [pick(rng, B16, 65536, over / 4), pick(rng, B16, 65536, over / 4)]
+    if n < 8000 and rng.random() < SHAPED:
+        return shape_list(rng, [fresh() for _ in range(min(n, rng.choice([0, 1, 2, 3, 5, 40])))], fresh)
+    return [fresh() for _ in range(n)]
 
 
 def gen_spec(rng, name=None, big=False, over=0.0):
@@ -491,8 +597,11 @@ def gen_spec(rng, name=None, big=False, over=0.0):
         nd = rng.choice([0, 1, 2, rng.randrange(0, 30), rng.randrange(30, 400)])
         if big and rng.random() < 0.03:
             nd = max(0, rng.choice([16379, 16380]) - len(gaps))
-        spec.update(ctsn=pick(rng, B32, 2**32, over), rwnd=pick(rng, B32, 2**32, over), gaps=gaps,
-                    dups=[pick(rng, B32, 2**32, over / 4) for _ in range(nd)])
+        fresh = lambda: pick(rng, B32, 2**32, over / 4)
+        dups = [fresh() for _ in range(nd)]
+        if nd < 8000 and rng.random() < SHAPED:
+            dups = shape_list(rng, dups[:rng.choice([0, 1, 2, 3, 5, 40])], fresh)
+        spec.update(ctsn=pick(rng, B32, 2**32, over), rwnd=pick(rng, B32, 2**32, over), gaps=gaps, dups=dups)
     elif name == "ShutdownChunk":
         spec["ctsn"] = pick(rng, B32, 2**32, over)
     else:
@@ -525,6 +634,9 @@ def shrink_spec(spec):
             w(**{k: l[: len(l) // 2]})
             w(**{k: l[1:]})
             w(**{k: l[:-1]})
+            if 3 <= len(l) <= 8:
+                for i in range(1, len(l) - 1):
+                    w(**{k: l[:i] + l[i + 1:]})
     if spec.get("params"):
         for i, (t, v) in enumerate(spec["params"]):
             b = unhx(v)
@@ -641,6 +753,20 @@ class Roundtrip(Isolated):
                                                           "proto": 51, "ud": "61"}},
             {"sp": 1, "dp": 2, "tag": 3, "chunk": {"cls": "InitChunk", "flags": 0, "tag": 1, "rwnd": 2, "outs": 3, "ins": 4,
                                                     "itsn": 5, "params": [[49152, "-"], [32776, "82c0"]]}},
+            # repeated entries: INIT with the supported-extensions parameter twice (around another one), RE-CONFIG with two
+            # identical outgoing-reset requests (RFC 6525 §4.1, one stream, 14 bytes), HEARTBEAT with the same info twice
+            {"sp": 5000, "dp": 5000, "tag": 0, "share": True,
+             "chunk": {"cls": "InitChunk", "flags": 0, "tag": 1, "rwnd": 131072, "outs": 65535, "ins": 65535, "itsn": 5,
+                       "params": [[32776, "82c0"], [49152, "-"], [32776, "82c0"]]}},
+            {"sp": 5000, "dp": 5000, "tag": 7,
+             "chunk": {"cls": "ReconfigChunk", "flags": 0,
+                       "params": [[13, "000000010000000000000005" + "0001"], [13, "000000010000000000000005" + "0001"]]}},
+            {"sp": 5000, "dp": 5000, "tag": 7, "share": True,
+             "chunk": {"cls": "HeartbeatChunk", "flags": 0, "params": [[1, "0102030405"], [1, "0102030405"]]}},
+            {"sp": 5000, "dp": 5000, "tag": 7,
+             "chunk": {"cls": "SackChunk", "flags": 0, "ctsn": 9, "rwnd": 1, "gaps": [[2, 3], [2, 3]], "dups": [7, 7, 7]}},
+            {"sp": 5000, "dp": 5000, "tag": 7, "share": True,
+             "chunk": {"cls": "ForwardTsnChunk", "flags": 0, "ctsn": 9, "streams": [[1, 2], [3, 4], [1, 2]]}},
         ]
 
     def cases(self, rng, tier):
@@ -664,12 +790,38 @@ class Roundtrip(Isolated):
         for _ in range(12 if tier == "quick" else 300):
             sp, dp, tag = gen_header(rng)
             out.append({"sp": sp, "dp": dp, "tag": tag, "chunk": gen_spec(rng, None, big=True)})
+        # round 4: equal entries at every pair of positions x every length residue, for every class with a parameter list
+        # (quick: each list goes to two of the seven classes); every shape for the gap / duplicate / stream lists
+        classes = PARAMS + INIT
+        for n, l in enumerate(equal_entry_sweep(rng, lambda L: _gen_param(rng, 0.0, L))):
+            for name in (classes if tier != "quick" else [classes[n % 7], classes[(n + 3) % 7]]):
+                s = gen_spec(rng, name)
+                s["params"] = [list(e) for e in l]
+                sp, dp, tag = gen_header(rng)
+                out.append({"sp": sp, "dp": dp, "tag": tag, "chunk": s})
+        pair = lambda: [pick(rng, B16, 65536), pick(rng, B16, 65536)]
+        u32 = lambda: pick(rng, B32, 2**32)
+        for shape in SHAPES:
+            for _ in range(1 if tier == "quick" else 6):
+                sp, dp, tag = gen_header(rng)
+                s = gen_spec(rng, "SackChunk")
+                s["gaps"] = shape_list(rng, [pair() for _ in range(rng.randrange(0, 5))], pair, shape)
+                s["dups"] = shape_list(rng, [u32() for _ in range(rng.randrange(0, 5))], u32, rng.choice(SHAPES))
+                out.append({"sp": sp, "dp": dp, "tag": tag, "chunk": s})
+                s = gen_spec(rng, "SackChunk")
+                s["dups"] = shape_list(rng, [u32() for _ in range(rng.randrange(0, 5))], u32, shape)
+                out.append({"sp": sp, "dp": dp, "tag": tag, "chunk": s})
+                s = gen_spec(rng, "ForwardTsnChunk")
+                s["streams"] = shape_list(rng, [pair() for _ in range(rng.randrange(0, 5))], pair, shape)
+                out.append({"sp": sp, "dp": dp, "tag": tag, "chunk": s})
         # object re-use: two thirds of the cases serialise an object that carried (and serialised) the values of
         # another generated case of the same class before; every case has a hostile owner between two parses
         for c in out:
             if rng.random() < 0.67:
                 c["prev"] = gen_spec(rng, c["chunk"]["cls"], big=False, over=0.02)
             c["k"] = rng.randrange(1, 13)
+            # equal list entries are one Python object occurring several times (True) or separately built ones (False)
+            c["share"] = rng.random() < 0.5
         return out
 
     def model_line(self, case):
@@ -682,9 +834,9 @@ class Roundtrip(Isolated):
             chunk = build_chunk(case["prev"])
             guard(lambda: m.serialize_packet(case["sp"], case["dp"], case["tag"], chunk), hx)
             guard(lambda: bytes(chunk), hx)
-            assign_fields(chunk, case["chunk"])
+            assign_fields(chunk, case["chunk"], case.get("share", False))
         else:
-            chunk = build_chunk(case["chunk"])
+            chunk = build_chunk(case["chunk"], case.get("share", False))
         ser = guard(lambda: m.serialize_packet(case["sp"], case["dp"], case["tag"], chunk), hx)
         if not ser.startswith("ok "):
             return ser, None, None
@@ -816,10 +968,17 @@ class Params(Isolated):
             elif mode == 3:
                 b += rbytes(rng, rng.randrange(1, 6))
             out.append({"dec": hx(bytes(b))})
+        # round 4: equal entries at every pair of positions x every length residue, encoded and (the reference encoding)
+        # decoded
+        for l in equal_entry_sweep(rng, lambda L: _gen_param(rng, 0.0, L)):
+            out.append({"enc": l})
+            out.append({"dec": hx(ref_params(l))})
         for c in out:
             c["k"] = rng.randrange(1, 13)
             if "enc" in c and rng.random() < 0.5:
                 c["prev"] = gen_params(rng)
+            if "enc" in c:
+                c["share"] = rng.random() < 0.5
         return out
 
     def model_line(self, case):
@@ -846,7 +1005,7 @@ class Params(Isolated):
                 hostile_list_obj(holder, "l", k, _elem("param", hostile_elem("param", k)))
             second = guard(lambda: m.decode_params(bytes(body)), show_params)
             return first if second == first else first + " => AGAIN " + second
-        ps = [(t, unhx(v)) for t, v in case["enc"]]
+        ps = build_list("param", case["enc"], case.get("share", False))
         if case.get("prev") is not None:
             # the same list object was encoded with other contents before
             live = [(t, unhx(v)) for t, v in case["prev"]]
@@ -891,7 +1050,10 @@ class Params(Isolated):
         out = []
         if case.get("prev") is not None:
             out.append({k: v for k, v in case.items() if k != "prev"})
-        return out + [dict(case, enc=x) for x in (l[: len(l) // 2], l[1:], l[:-1]) if x != l]
+        mids = [l[:i] + l[i + 1:] for i in range(1, len(l) - 1)] if 3 <= len(l) <= 8 else []
+        short = [[[t, hx(unhx(v)[:-1])] if j == i else [t, v] for j, (t, v) in enumerate(l)]
+                 for i in range(len(l)) if unhx(l[i][1])] if len(l) <= 4 else []
+        return out + [dict(case, enc=x) for x in [l[: len(l) // 2], l[1:], l[:-1]] + mids + short if x != l]
 
 
 RC = {"out": ("StreamResetOutgoingParam", 13), "add": ("StreamAddOutgoingParam", 17), "resp": ("StreamResetResponseParam", 16)}
@@ -987,8 +1149,12 @@ class Reconfig(Isolated):
         for _ in range(n):
             k = rng.choice(["out", "add", "resp"])
             if k == "out":
+                sid = lambda: pick(rng, B16, 65536, .01)
+                streams = [sid() for _ in range(rng.choice([0, 1, 2, 3, rng.randrange(0, 140)]))]
+                if rng.random() < SHAPED:
+                    streams = shape_list(rng, streams[:rng.choice([0, 1, 2, 3, 5, 40])], sid)
                 s = f"out:{pick(rng, B32, 2**32, .03)}:{pick(rng, B32, 2**32, .03)}:{pick(rng, B32, 2**32, .03)}:" + show_nats(
-                    [pick(rng, B16, 65536, .01) for _ in range(rng.choice([0, 1, 2, 3, rng.randrange(0, 140)]))])
+                    streams)
             elif k == "add":
                 s = f"add:{pick(rng, B32, 2**32, .03)}:{pick(rng, B16, 65536, .03)}"
             else:
@@ -1304,11 +1470,20 @@ class Parse(Isolated):
         # bundles of valid chunks, then mutated
         n = 1200 if tier == "quick" else 12000
         for _ in range(n):
-            chunks = []
+            specs = []
             for _ in range(rng.choice([1, 1, 2, 3])):
                 spec = gen_spec(rng)
                 if spec_in_range(spec):
-                    chunks.append(bytes(build_chunk(spec)))
+                    specs.append(spec)
+            if rng.random() < SHAPED / 2:
+                # round 4: bundles with repeated chunks (first = last, adjacent equal, all equal ...)
+                def small():
+                    while True:
+                        sp_ = gen_spec(rng)
+                        if spec_in_range(sp_) and len(ref_chunk(sp_)) <= 200:
+                            return sp_
+                specs = shape_list(rng, [x for x in specs if len(ref_chunk(x)) <= 200], small, limit=6)
+            chunks = [bytes(build_chunk(spec)) for spec in specs]
             offs = [12]
             for c in chunks:
                 offs.append(offs[-1] + len(c))
@@ -1466,6 +1641,13 @@ class Parse(Isolated):
             out.append(fix_crc(bytes(12) + chunk_bytes_raw(11, 0, b"")))
             walk = ref_walk(b)
             if walk and len(walk) > 1:
+                raw = [chunk_bytes_raw(ty, fl, body) for ty, fl, body in walk]
+                if len(walk) > 2:
+                    # keep two chunks (a failure may need a repeated chunk): the first two, the last two, first and last
+                    for pair_ in (raw[:2], raw[-2:], [raw[0], raw[-1]]):
+                        out.append(fix_crc(b[:12] + b"".join(pair_)))
+                if raw[0] == raw[1] and len(raw[0]) > 4:
+                    out.append(fix_crc(b[:12] + chunk_bytes_raw(11, walk[0][1], b"") * 2))
                 ty, fl, body = walk[0]
                 out.append(fix_crc(b[:12] + chunk_bytes_raw(ty, fl, body)))
                 ty, fl, body = walk[-1]
